@@ -1,6 +1,7 @@
 package verifsim
 
 import (
+	"encoding/json"
 	"fmt"
 	"strings"
 	"time"
@@ -162,6 +163,115 @@ func runC12(rc *RunCtx) {
 	teamTok := tr.Auth.ClientToken
 
 	viol := func(class string, sig map[string]any, f string, a ...any) { s.Violate("C12", class, sig, f, a...) }
+
+	// ---- remounts (same namespace and across namespaces): the moved mount
+	// keeps its data, and from then on lives - entirely - under its new
+	// namespace's storage; the hostile requests below then run against the
+	// moved mounts too ----
+	nsPrefixOf := func(ns string) (string, bool) {
+		if ns == "" {
+			return "", true
+		}
+		for _, x := range mounts {
+			if x.ns == ns {
+				return x.prefix[:strings.Index(x.prefix, "logical/")], true
+			}
+		}
+		return "", false
+	}
+	nMoves := 0
+	if !sealable && tp.Pick(2) == 0 {
+		nMoves = 1 + tp.Pick(2)
+	}
+	rc.Cfg("remounts", nMoves)
+	for mv := 0; mv < nMoves && s.Viol == nil; mv++ {
+		m := mounts[tp.Pick(len(mounts))]
+		dstNS := []string{m.ns, "", "team/", "other/", "team/sub/"}[tp.Pick(5)]
+		dstNSPrefix, ok := nsPrefixOf(dstNS)
+		if !ok {
+			continue
+		}
+		dstPath := fmt.Sprintf("moved%d/", mv)
+		srcNSPrefix, _ := nsPrefixOf(m.ns)
+		r, err := rootDo("", "sys/remount", logical.UpdateOperation, map[string]any{"from": m.ns + m.path, "to": dstNS + dstPath})
+		if err != nil || r == nil || r.IsError() {
+			s.Probe("remount_refused")
+			continue
+		}
+		id := fmt.Sprint(r.Data["migration_id"])
+		done := false
+		for w := 0; w < 20 && !done; w++ {
+			s.SetControlled()
+			s.Drain(time.Second, time.Second)
+			s.PassThrough()
+			st, err := rootDo("", "sys/remount/status/"+id, logical.ReadOperation, nil)
+			if err == nil && st != nil {
+				js, _ := json.Marshal(st.Data["migration_info"])
+				switch {
+				case strings.Contains(string(js), `"status":"success"`):
+					done = true
+				case strings.Contains(string(js), `"status":"failure"`):
+					w = 99
+				}
+			}
+		}
+		if !done {
+			s.Probe("remount_not_completed")
+			// state of the mount unknown: leave it out of the rest of the run
+			for i, x := range mounts {
+				if x == m {
+					mounts = append(mounts[:i], mounts[i+1:]...)
+					break
+				}
+			}
+			continue
+		}
+		cross := dstNS != m.ns
+		sig := map[string]any{"cross_namespace": cross, "kind": m.kind}
+		rpath, wpath := dstPath+"data/probe", dstPath+"data/after-move"
+		if m.kind == "kv" {
+			rpath, wpath = dstPath+"probe", dstPath+"after-move"
+		}
+		// data continuity at the new path
+		got, err := rootDo(dstNS, rpath, logical.ReadOperation, nil)
+		if err != nil || !respHasCanary(got, m.canary) {
+			viol("remounted-mount-lost-its-data", sig, "after remount %s%s -> %s%s the value written before the move is not returned at the new path (%v, %v)", m.ns, m.path, dstNS, dstPath, got, err)
+			return
+		}
+		// a write through the moved mount lands under the destination
+		// namespace, under ONE mount prefix, and nothing of the mount stays
+		// behind under the source namespace
+		if r, err := rootDo(dstNS, wpath, logical.UpdateOperation, map[string]any{"value": m.canary}); err != nil || (r != nil && r.IsError()) {
+			viol("remounted-mount-refuses-writes", sig, "write through the moved mount %s%s failed: %v %v", dstNS, dstPath, err, r)
+			return
+		}
+		muuid := strings.TrimSuffix(m.prefix[strings.Index(m.prefix, "logical/")+len("logical/"):], "/")
+		newPrefix := ""
+		for _, k := range disk.RawKeys("") {
+			if !strings.Contains(k, "logical/"+muuid+"/") {
+				continue
+			}
+			kp := k[:strings.Index(k, "logical/"+muuid+"/")+len("logical/"+muuid+"/")]
+			want := dstNSPrefix + "logical/" + muuid + "/"
+			if kp != want {
+				viol("remounted-mount-storage-outside-its-namespace", sig, "after remount %s%s -> %s%s the mount's record %q is not under its namespace's storage %q (source namespace storage: %q)", m.ns, m.path, dstNS, dstPath, k, want, srcNSPrefix+"logical/"+muuid+"/")
+				return
+			}
+			newPrefix = kp
+		}
+		if newPrefix == "" {
+			viol("remounted-mount-lost-its-data", sig, "no record of the moved mount %s%s found in storage", dstNS, dstPath)
+			return
+		}
+		m.ns, m.path, m.prefix = dstNS, dstPath, newPrefix
+		s.Probe("remounted")
+		if cross {
+			s.Probe("remounted_across_namespaces")
+		}
+	}
+	if s.Viol != nil {
+		return
+	}
 	setupOps := len(disk.Ops)
 	setupEvents := len(rec.Snapshot())
 
